@@ -3,9 +3,11 @@
     net.SplitHostPort on every string the code asks them about, what the real fabio code did
     (parsed rule map, denyByIP on probe addresses, status and upstream hits of
     HTTPProxy.ServeHTTP, dials of the three TCP proxies), and an independent net/netip
-    reading of the same rule text and addresses. *)
+    reading of the same rule text and addresses; and, for a basic scheme with a refreshed
+    htpasswd file, the history of the file and of the refresh goroutine before a request
+    (case CReload, replayed on Model/BasicReload.v). *)
 From Coq Require Import String List NArith Bool.
-From Fabio Require Import Lib.Outcome Lib.Bytes Lib.Verdict Model.Access.
+From Fabio Require Import Lib.Outcome Lib.Bytes Lib.Verdict Model.Access Model.BasicReload.
 Import ListNotations.
 Local Open Scope N_scope.
 
@@ -72,6 +74,44 @@ Definition scheme_tab (l : list (str * bool)) : scheme_table unit :=
 Definition count_upstream (l : list event) : N :=
   N.of_nat (List.length (filter (fun e => match e with EUpstream => true | _ => false end) l)).
 
+(* ---- histories of a refreshed basic scheme (Model/BasicReload.v) ---- *)
+(* what the harness did to the htpasswd file and what it saw of the refresh goroutine, in order *)
+Inductive hstep :=
+| HsWrite (c : hfile) (mt : N)   (* the file was replaced (rename), ModTime mt *)
+| HsRemove                       (* the file was removed *)
+| HsBad                          (* the bad-line handler ran (seen through the standard logger): the
+                                    goroutine is inside the scanner loop of ReloadFromReader *)
+| HsInForce.                     (* the newest content was seen in force (its canary user flipped) *)
+
+Definition hist_files (init : hfile) (hist : list hstep) : list hfile :=
+  init :: flat_map (fun h => match h with HsWrite c _ => [c] | _ => [] end) hist.
+Definition hist_fuel (init : hfile) (hist : list hstep) : nat :=
+  (8 + fold_right (fun f n => List.length f + n) 0 (hist_files init hist))%nat.
+
+(* the model replays the history: operator actions as they are, then the goroutine alone until
+   it has produced the event the harness saw; None = the model never produces it *)
+Definition replay_step (fuel : nat) (st : option rstate) (h : hstep) : option rstate :=
+  match st with
+  | None => None
+  | Some st =>
+      match h with
+      | HsWrite c mt => Some (snd (rstep st (AWrite c mt)))
+      | HsRemove => Some (snd (rstep st ARemove))
+      | HsBad => advance_until is_bad_line fuel st
+      | HsInForce => advance_until is_loaded fuel st
+      end
+  end.
+
+(* the reference's own bookkeeping, from the history alone: [stable] = the content last seen in
+   force, [pending] = contents given to the file since (a removal = the empty content) *)
+Definition spec_step (s : hfile * list hfile) (h : hstep) : hfile * list hfile :=
+  match h with
+  | HsWrite c _ => (fst s, c :: snd s)
+  | HsRemove => (fst s, [] :: snd s)
+  | HsBad => s
+  | HsInForce => match snd s with c :: _ => (c, []) | [] => s end
+  end.
+
 Inductive case :=
 (* the real Route.addTarget on opts {allow, deny}: parsed rule map, whether ProcessAccessRules
    returned an error, and per probe address (impl denyByIP, netip reference admits) *)
@@ -98,7 +138,15 @@ Inductive case :=
    addTarget with opts proto=grpc + allow/deny/auth: [peer] = the caller's address as the proxy's
    listener sees it, [reached] = calls the backend served, [ok] = the caller got status OK *)
 | CGrpc (e : env) (auth : str) (schemes : list (str * bool)) (peer : ipaddr) (ref_admit : bool)
-        (reached : N) (ok : bool).
+        (reached : N) (ok : bool)
+(* one request of a history against ONE HTTPProxy whose route has auth=<auth>, the scheme being a
+   basic scheme with refresh > 0 loaded by the real auth.LoadAuthSchemes from a file with content
+   [init] (ModTime mt0): [hist] = what happened to the file and what was seen of the refresh
+   goroutine before this request (requests made at an HsBad point run INSIDE the goroutine's
+   bad-line callback, i.e. between noticing the change and the swap); [nreq] = requests served
+   earlier in the history; [cr] = request.BasicAuth() of this request; observables as in CHttp *)
+| CReload (redirect : N) (auth : str) (init : hfile) (mt0 : N) (hist : list hstep) (nreq : N) (cr : bcreds)
+          (status hits : N) (has_location : bool).
 
 Definition check_case (c : case) : N :=
   match c with
@@ -220,4 +268,34 @@ Definition check_case (c : case) : N :=
                     then Some 4 else None in
       if negb sane then v_disagree else
       verdict same spec region (negb (rules_empty mr) || negb mok || negb (is_nil auth))
+  | CReload redirect auth init mt0 hist nreq cr status hits has_location =>
+      let fuel := hist_fuel init hist in
+      let st := fold_left (replay_step fuel) hist (Some (rboot init mt0)) in
+      let remote := [49; 57; 50; 46; 48; 46; 50; 46; 55; 58; 52; 55; 49; 49] in     (* 192.0.2.7:4711 *)
+      let m_obs := match st with
+                   | None => (0, 99, false)
+                   | Some st =>
+                       match serve_http (fun _ => None) (fun _ => Some (firstn 9 remote)) bcreds
+                               (Some {| t_rules := no_rules; t_auth := auth; t_redirect := redirect |})
+                               (basic_scheme_table auth st) remote [] cr with
+                       | [ERespond s] => (s, 0, false)
+                       | [ERedirect c] => (c, 0, true)
+                       | [EUpstream] => (200, 1, false)
+                       | _ => (0, 99, false)
+                       end
+                   end in
+      let same := (fst (fst m_obs) =? status) && (snd (fst m_obs) =? hits) && Bool.eqb (snd m_obs) has_location in
+      (* THE PROPERTY on the implementation's observables: forwarded (or redirected) only if the
+         credentials are accepted by the content last seen in force or, while a change is
+         pending, by one of the pending contents; otherwise 401 and no upstream *)
+      let '(stable, pending) := fold_left spec_step hist (init, []) in
+      let acceptable := existsb (fun f => file_accepts_b f cr) (stable :: pending) in
+      let contacted := negb (hits =? 0) in
+      let redirected := negb (redirect =? 0) && (status =? redirect) && has_location in
+      let spec := if contacted || redirected then acceptable
+                  else if negb acceptable then status =? 401 else true in
+      (* the reference reads a file as a set of (user, password) lines: no user twice *)
+      let sane := forallb (fun f => str_nodup (users_of f)) (hist_files init hist) && negb (is_nil auth) in
+      if negb sane then v_disagree else
+      verdict same spec None true
   end.
